@@ -364,3 +364,19 @@ package workflow
 //@   ensures [adds-one-node] forall d any, k string :: indag(d, k) != old(indag(d, k)) ==> d == dag && !old(indag(d, k)) && k == nodeid(currentNode) + "." + callres(strings.Join, 1, 0)
 //@   ensures [adds-one-dependency] forall d any, t string, f string :: dep(d, t, f) != old(dep(d, t, f)) ==> \
 //@        d == dag && t == nodeid(currentNode) && f == nodeid(currentNode) + "." + callres(strings.Join, 1, 0) && dep(d, t, f) == dependencyType && result1 == nil
+//
+// refnode(p): the graph node a dependency path into $.steps refers to: the stage node for
+// $.steps.<step>.<stage>, the output node for $.steps.<step>.<stage>.<output>[...].
+//@ pure refnode(p expressions.Path) string = ite(len(p) == 4, pathString(subslice(p, 1, 4)), pathString(subslice(p, 1, 5)))
+//@ pred refEdge(dag any, cur string, p expressions.Path) = (p[1] == any("input") ==> dep(dag, cur, "input") != "") && (p[1] == any("steps") ==> dep(dag, cur, refnode(p)) != "")
+//
+//@ func (*executor).prepareExprDependencies
+//@   requires e != nil && e.logger != nil && expr != nil && currentNode != nil && dag != nil && nodedag(currentNode) == dag
+//@   modifies ghost dep
+//@   ensures [every-reference-becomes-a-dependency-of-this-node] result == nil ==> \
+//@        (forall j int :: 0 <= j && j < len(callres(Dependencies, 1, 0)) ==> refEdge(dag, nodeid(currentNode), callres(Dependencies, 1, 0)[j]))
+//@   ensures [only-required-dependencies-into-this-node-are-added] forall d any, t string, f string :: dep(d, t, f) != old(dep(d, t, f)) ==> \
+//@        d == dag && t == nodeid(currentNode) && old(dep(d, t, f)) == "" && dep(d, t, f) == "and"
+//@   loop 1 invariant forall j int :: 0 <= j && j <= rangeidx ==> refEdge(dag, nodeid(currentNode), dependencies[j])
+//@   loop 1 invariant forall d any, t string, f string :: dep(d, t, f) != old(dep(d, t, f)) ==> \
+//@        d == dag && t == nodeid(currentNode) && old(dep(d, t, f)) == "" && dep(d, t, f) == "and"
